@@ -46,7 +46,9 @@ def gen_cases(tier, seed):
             for e in list(wf):
                 if rng.random() < 0.3:
                     del wf[e]
-        cases.append({"kind": "anti", "spec": gen.spec(nodes, edges), "wf": [[u, v, w] for (u, v), w in wf.items()], "default": rng.random() < 0.15})
+        cases.append({"kind": "anti", "spec": gen.spec(nodes, edges), "wf": [[u, v, w] for (u, v), w in wf.items()], "default": rng.random() < 0.15,
+                      "st_weights": (rng.choice([None, None, [rng.choice([0, 1, 3, 5]) for _ in range(8)]])),
+                      "starts": ([rng.choice(nodes)] if rng.random() < 0.15 else []), "ends": ([rng.choice(nodes)] if rng.random() < 0.15 else [])})
     for i in range(n):
         rng = gen.rng_for("C17p", seed, i)
         nodes, edges = gen.dag_any(rng, 14)
@@ -191,8 +193,12 @@ def brute_antichain(st, w):
 
 
 def run_anti(case, viol, obs):
-    G = gen.build(case["spec"]); st = fp.stDAG(G)
+    G = gen.build(case["spec"]); st = fp.stDAG(G, additional_starts=case.get("starts") or None, additional_ends=case.get("ends") or None)
     wf = {(u, v): w for u, v, w in case["wf"]}
+    if case.get("st_weights") and not case.get("default"):
+        # the docstring allows weights on any edge of the s-t graph, also on the edges from the global source / to the global sink
+        for i, e in enumerate(sorted(st.source_sink_edges, key=str)):
+            wf[e] = case["st_weights"][i % len(case["st_weights"])]
     if case.get("default"):
         r = M.safe_call(st.compute_max_edge_antichain, get_antichain=True)
         w = {e: (0 if e in st.source_sink_edges else 1) for e in st.edges}
